@@ -129,3 +129,29 @@ def cmp_pred(prop, case, model, mat, F, variant, final):
 
 
 COMPARATORS = {"verify": cmp_verify, "pres_refused": cmp_pres_refused, "pred": cmp_pred}
+
+
+def cmp_prove(prop, case, model, mat, F, variant, final):
+    """reference prover: the model builds the proof, the real verifier judges"""
+    if model is None or "error" in model:
+        if final:
+            F.mismatch("driver", "model driver failed on %s: %s" % (case["id"], (model or {}).get("error")), case, variant)
+        return False
+    if model.get("status") != "ok":
+        if final:
+            F.mismatch("model_prove", "%s: model prover failed: %s" % (case["id"], model), case, variant, model)
+        return False
+    ex = case["impl"]["exec"]
+    inp = dict(ex["in"])
+    inp["proof"] = model["proof"]
+    r = mat.call(ex["op"], inp)
+    if not final:
+        return True
+    if verdict(r or {}) != "accept":
+        F.oracle_failure("reference_prover_accepted", "the real verifier does not accept a proof computed by the model prover (%s): %s" %
+                         (case.get("class"), {k: v for k, v in (r or {}).items() if k != "oracles"}), case, variant)
+    return True
+
+
+COMPARATORS["prove"] = cmp_prove
+ORACLES.setdefault("C07", set()).update({"reference_prover_accepted"})
